@@ -233,6 +233,37 @@ func init() {
 		for _, f := range fixed {
 			judge("fixed", f[0], f[1], nil)
 		}
+		// the caller's scope has variables named like the parameters, and every argument is an expression
+		// of some syntactic form (operand of a prefix / infix operator, element, hash value, call argument,
+		// index) over THOSE: each is evaluated in the caller's scope, whatever was bound before it
+		{
+			type form struct {
+				src string
+				val func(a, b bool) interface{}
+			}
+			forms := []form{
+				{"a", func(a, b bool) interface{} { return a }}, {"b", func(a, b bool) interface{} { return b }},
+				{"!a", func(a, b bool) interface{} { return !a }}, {"!b", func(a, b bool) interface{} { return !b }}, {"!!b", func(a, b bool) interface{} { return b }},
+				{"!(a)", func(a, b bool) interface{} { return !a }}, {"[b, a][0]", func(a, b bool) interface{} { return b }}, {"[a, b][1]", func(a, b bool) interface{} { return b }},
+				{`{k: a}["k"]`, func(a, b bool) interface{} { return a }}, {"a == b", func(a, b bool) interface{} { return a == b }}, {"id(b)", func(a, b bool) interface{} { return b }},
+				{"id(!a)", func(a, b bool) interface{} { return !a }}, {"!id(b)", func(a, b bool) interface{} { return !b }}, {"(b && true)", func(a, b bool) interface{} { return b }},
+				{"true", func(a, b bool) interface{} { return true }},
+			}
+			def := "<% let both = fn(a, b) { %><%= a %>,<%= b %><% } %><% let id = fn(v) { return v } %>"
+			for _, av := range []bool{true, false} {
+				for _, bv := range []bool{true, false} {
+					for _, f1 := range forms {
+						for _, f2 := range forms {
+							if !e.Thorough() && (f1.src == "true" || !strings.Contains(f2.src, "a")) {
+								continue // the second argument is the one a half-bound scope would get wrong
+							}
+							tm := def + fmt.Sprintf("<%% let a = %v %%><%% let b = %v %%><%%= both(%s, %s) %%>|<%%= a %%>,<%%= b %%>", av, bv, f1.src, f2.src)
+							judge("caller-scope-args", tm, fmt.Sprintf("%v,%v|%v,%v", f1.val(av, bv), f2.val(av, bv), av, bv), nil)
+						}
+					}
+				}
+			}
+		}
 		// a return reached inside a loop inside the function (recorded finding: the loop swallows it)
 		for _, f := range [][2]string{
 			{`<% let lp = fn(xs) { %><% for (x) in xs { %>item <%= x %>,<% if (x == 2) { %><% return x * 10 %><% } %><% } %>none<% return 0 %><% } %><%= lp([1, 2, 3]) %>|<%= lp([5]) %>|<%= lp([2]) + 1 %>`, "20|0|21"},
